@@ -188,7 +188,11 @@ class Ctx:
                 ok = bool(lhs == rhs)
             out = {"pass": ok, "lhs": self.ser(lhs), "rhs": self.ser(rhs)}
             if not ok:
-                out["reeval_equal"] = bool(self.closure(lhs) == self.closure(rhs))
+                try:
+                    out["reeval_equal"] = bool(self.closure(lhs) == self.closure(rhs))
+                except Exception as e:  # noqa  (sympy cannot sort an Add holding ExteriorProduct(0, w): raw int operand)
+                    out["reeval_equal"] = False
+                    out["reeval_raised"] = errkind(e)
                 out["lhs_str"], out["rhs_str"] = safe_str(lhs), safe_str(rhs)
             return out
         except Exception as e:  # noqa
